@@ -1,0 +1,6 @@
+//go:build verif
+
+package validation
+
+// VerifMultiplier returns the unexported multiplier() of the validation (thin accessor, no logic; go2v cross-check).
+func (v *Validation) VerifMultiplier() uint8 { return v.multiplier() }
